@@ -40,6 +40,17 @@ def check_id(r, ctx):
         raise Violation("parse-eq", "%r: parsed id is not equal to the original" % printed)
     if str(parsed) != printed:
         raise Violation("reprint", "%r -> %r" % (printed, str(parsed)))
+    # what a parse returns belongs to the caller: editing it must not reach a later parse of the same string
+    if isinstance(parsed.prediction_id, list):
+        parsed.prediction_id.append(77)
+        parsed.prediction_id[0] += 1
+    parsed.map_name = parsed.map_name + "x"
+    with warnings.catch_warnings():
+        warnings.simplefilter("ignore")
+        again = ScenarioID.from_benchmark_id(printed, r["scenario_version"])
+    if str(again) != printed or not (again == sid):
+        raise Violation("second-parse-differs", "%r parsed a second time (after the first result was edited) prints %r"
+                        % (printed, str(again)))
     optional = int(bool(r["cooperative"])) + int(n["configuration_id"] is not None) + int(
         isinstance(n["prediction_id"], list))
     multi = any(isinstance(v, int) and v >= 10 for v in (n["map_id"], n["configuration_id"])) or (
